@@ -77,6 +77,17 @@ def run(ctx):
         tracecheck.report(ctx, rejs, f'life seed {sd}', name=f'life_{sd}')
         if i == 1:
             ctx.samples.append({'recorded_execution': tracecheck.split_execs(rows)[0][:40]})
+    # thread_join() racing with the dying thread's last steps on another vCPU (dying thread held at the guarded hook in die());
+    # released stacks are quarantined and made inaccessible, so a premature release faults
+    for k in range(2 if t == 'quick' else 8):
+        sd = (ctx.seed * 10 + k) * 2 + 1          # odd seed: default stack allocator, quarantine on
+        trace = f'{ctx.out}/joinrace_{sd}.ndjson'
+        rc, o, e = ctx.run_harness(h, ['--prim', 'joinrace', '--execs', 80 if t == 'quick' else 400, '--seed', sd, '--vcpus', 3, '--out', trace],
+                                   timeout=900, ok_rcs=(0, 3, 4))
+        rows = vtlib.read_ndjson(trace)
+        acc, rejs, n = tracecheck.validate(ctx, 'Trace_LifeA', 'Trace_LifeA.cfg', rows, tagbase=f'joinrace_{sd}')
+        n_exec += n
+        tracecheck.report(ctx, rejs, f'joinrace seed {sd}', name=f'joinrace_{sd}')
     ctx.extra['executions_recorded'] = n_exec
     # directed scenario of F9 (expected to crash or to be rejected while F9 is open)
     hits = 0
